@@ -193,36 +193,84 @@ def mon_ledger(c):
 
 
 def mon_resolve(c):
-    """C12: every request handed to the connection ends exactly once; no deadlock, no panic."""
+    """C12: every request handed to the connection ends exactly once, and once the connection is dead
+    or the request's timeout has fired its caller finds a result waiting; no deadlock, no panic.
+    A connection whose loops neither go idle nor exit (`stuck`) is a violation by itself: the callers of
+    the requests listed with it would wait in RoundTrip for ever."""
     v = []
     results = collections.defaultdict(list)
-    tags, dead_at = [], None
+    tags, dead_at, stuck_at, stuck_op = [], None, None, ""
+    timed_out, no_result = set(), []
+    wfail_at = None
+    srv_buf, srv_ended = b"", set()     # the server's octets so far; streams it has ended with END_STREAM
     for i, (f, cmp_, diag, _) in enumerate(c.steps):
-        if cmp_.startswith("stuck"):
-            v.append(("deadlock", "the connection's loops neither went idle nor exited after: %s" % " ".join(f[2:4])[:80]))
-            return v
+        if f[2] == "frame" and f[3] != "-":
+            try:
+                srv_buf += bytes.fromhex(f[3])
+            except ValueError:
+                pass
+            while len(srv_buf) >= 9 and len(srv_buf) >= 9 + int.from_bytes(srv_buf[:3], "big"):
+                l = int.from_bytes(srv_buf[:3], "big")
+                if srv_buf[3] in (0, 1) and srv_buf[4] & 1:
+                    srv_ended.add(int.from_bytes(srv_buf[5:9], "big") & 0x7fffffff)
+                srv_buf = srv_buf[9 + l:]
+        if wfail_at is None and " wfail=" in " " + diag:
+            wfail_at = i
+            if not cmp_.startswith("stuck"):
+                # the transport has refused a write: once the step has settled nobody may still be waiting
+                ready = kvs(cmp_).get("ready", "-")
+                ready = set() if ready == "-" else set(ready.split(","))
+                waiting = [t for t in tags + ([f[3]] if f[2] == "req" else []) if t not in results and t not in ready]
+                if waiting:
+                    v.append(("stranded-request", "%s left waiting on a connection whose transport failed a write in: %s" % (
+                        ",".join(waiting), " ".join(f[2:4])[:60])))
+        if cmp_.startswith("stuck") and stuck_at is None:
+            stuck_at, stuck_op = i, " ".join(f[2:4])[:80]
+            if f[2] == "req":
+                tags.append(f[3])
         if cmp_.startswith("panic"):
             v.append(("panic", " ".join(f[2:4])[:80]))
             return v
         if " dead " in " " + cmp_ + " " and dead_at is None:
             dead_at = i
-        if f[2] == "req":
+        if f[2] == "req" and stuck_at is None:
             tags.append(f[3])
+        if f[2] == "timeout" and stuck_at is None:
+            timed_out.add(f[3])
         if f[2] == "read":
             if cmp_.startswith("read none"):
-                if dead_at is not None:
+                if stuck_at is not None:
+                    if f[3] not in no_result:
+                        no_result.append(f[3])
+                elif dead_at is not None:
                     v.append(("stranded-request", "%s has no result after the connection ended" % f[3]))
+                elif f[3] in timed_out:
+                    v.append(("stranded-request", "%s has no result after its timeout fired" % f[3]))
+                elif wfail_at is not None and f[3] in tags and not any(x[0] == "stranded-request" and f[3] in x[1].split(" ")[0].split(",") for x in v):
+                    v.append(("stranded-request", "%s is left waiting on a connection whose transport failed a write (step %d: %s)" % (
+                        f[3], wfail_at, " ".join(c.steps[wfail_at][0][2:4])[:60])))
             elif cmp_.startswith("read again"):
                 pass
+            elif cmp_.startswith("read hung"):
+                v.append(("caller-blocked", "%s: the result arrived but taking the request back never returns (the connection kept its lock)" % f[3]))
+                results[f[3]].append(cmp_)
             else:
                 results[f[3]].append(cmp_)
+                k = kvs(cmp_)
+                if cmp_.startswith("read ok ") and k.get("sid", "0").isdigit() and int(k.get("sid", "0")) not in srv_ended:
+                    v.append(("success-without-response", "%s is reported successful although the server never finished a response on stream %s" % (f[3], k.get("sid"))))
+    if stuck_at is not None:
+        left = [t for t in no_result if t not in results and t in tags]
+        v.append(("deadlock", "the connection's loops neither went idle nor exited after: %s%s" % (
+            stuck_op, ("; requests left without a result: " + ",".join(left)) if left else "")))
+        return v
     for t, r in results.items():
         if len(r) > 1:
             v.append(("resolved-twice", t))
     if dead_at is not None:
         last_read = {f[3] for (f, cmp_, _, _) in c.steps[dead_at:] if f[2] == "read"}
         for t in tags:
-            if t in last_read and t not in results and not any(x[0] == "stranded-request" and t in x[1] for x in v):
+            if t in last_read and t not in results and not any(x[0] == "stranded-request" and x[1].startswith(t + " ") for x in v):
                 v.append(("stranded-request", t))
     return v
 
@@ -287,7 +335,8 @@ def mon_goaway(c):
             if ga_last is not None and 0 < sid <= ga_last and sid in srv:
                 # the server delivered the whole response before anything ended the connection from outside
                 at = srv[sid][0]
-                outside = [j for j, (g, _, _, _) in enumerate(c.steps) if g[2] in ("close", "cut")]
+                # (a write the transport refused ends the connection just as much as the caller's Close)
+                outside = [j for j, (g, _, d2, _) in enumerate(c.steps) if g[2] in ("close", "cut") or " wfail=" in " " + d2]
                 delivered = not outside or all(j >= at_end(c, sid, at) for j in outside)
                 timed = any(g[2] == "timeout" and g[3] == tag for (g, _, _, _) in c.steps)
                 if delivered and not timed and err != "ok" and "malformed" not in srv[sid][1]:
@@ -344,6 +393,10 @@ def mon_resp(c):
         op = f[2]
         if (" dead " in " " + cmp_ + " " or cmp_.startswith("stuck")) and ended is None:
             ended = i
+            if "write_failed" in diag:
+                # a failed write ends the connection from the write loop while the read loop may still be
+                # handing out the frames of this step: the response counts as sent only if it was complete before
+                ended = i - 1
         for (k, sid, a) in client_frames(diag):
             if k == "H":
                 if sid % 2 == 0 or sid <= last_sid:
@@ -581,12 +634,20 @@ def table_size_lowered_then_raised(c):
     return False
 
 
+def end_stream_bit_on_other_frame(c):
+    """the server set flag bit 0x1 on a stream frame other than HEADERS and DATA (finding F65: the client
+    takes it for END_STREAM)"""
+    return any(t not in (0, 1) and sid != 0 and fl & 1
+               for (f, _, _, _) in c.steps if f[2] == "frame" for (t, fl, sid, _) in parse_frames(f[3]))
+
+
 CLASSES = {
     "response-block-continued": has_continuation,
     "goaway-with-streams-in-flight": goaway_with_streams_in_flight,
     "data-on-abandoned-stream": data_on_abandoned_stream,
     "every-connection": always,
     "table-size-lowered-then-raised": table_size_lowered_then_raised,
+    "end-stream-bit-on-other-frame": end_stream_bit_on_other_frame,
 }
 
 # which violation kinds a class can explain
@@ -596,6 +657,7 @@ CLASS_KINDS = {
     "data-on-abandoned-stream": {"connection-credit-withheld", "stream-credit-withheld"},
     "every-connection": {"enable-push-0-not-advertised"},
     "table-size-lowered-then-raised": {"header-table-size-exceeded", "request-header-block-undecodable"},
+    "end-stream-bit-on-other-frame": {"success-without-response", "response-from-nowhere"},
 }
 
 
@@ -631,6 +693,11 @@ def run_areas(ctx, areas, monitors, extra_note=""):
                                    nontrivial=lambda o, a: (" out=" in " " + a and "out=-" not in a) or a.startswith(("read ok", "stuck", "dead")) or " dead " in a)
         cov["ambiguous_steps"] = sum(1 for b in model if b == "ambiguous")
         conns = split_conns(ops, impl)
+        # a listed finding is a defect the model reproduces: on a connection where the implementation does not behave as
+        # the model predicts nothing is excused (model gate, DESIGN 0.3)
+        diff_idx = {k for k, (a, b) in enumerate(zip(cmp_impl, model2)) if a != b}
+        for c in conns:
+            c.differs = any(st[3] in diff_idx for st in c.steps)
         cov["connections"] = len(conns)
         kinds = collections.Counter()
         for c in conns:
@@ -656,6 +723,8 @@ def run_areas(ctx, areas, monitors, extra_note=""):
 
 
 def classify(ctx, c, kind, known_ok):
+    if getattr(c, "differs", False):
+        return None
     for k in ctx.known:
         if k["id"] in known_ok and kind in CLASS_KINDS.get(k["cls"], ()) and CLASSES[k["cls"]](c):
             return k
@@ -713,28 +782,33 @@ def make_replay(monitors):
     return replay
 
 
+WFAIL_NOTE = ("cliwfail: the transport fails every write after n more octets (n from 0 to beyond a whole step), injected at every "
+              "position of scripted exchanges with every body kind (none, buffered small/large, streamed declared/unknown, "
+              "flow-blocked) and into random traffic, followed by timeout/read/close/cut in several orders.")
+
+
 def run_c07(ctx):
-    return run_areas(ctx, ["cliflow"], [mon_ledger, mon_resolve_deadlock_only],
-                     "cliflow: uploads (buffered/streamed) x initial window / MAX_FRAME_SIZE x schedules of WINDOW_UPDATE and SETTINGS.")
+    return run_areas(ctx, ["cliflow", "cliwfail"], [mon_ledger, mon_resolve_deadlock_only],
+                     "cliflow: uploads (buffered/streamed) x initial window / MAX_FRAME_SIZE x schedules of WINDOW_UPDATE and SETTINGS. " + WFAIL_NOTE)
 
 
 def mon_resolve_deadlock_only(c):
-    return [x for x in mon_resolve(c) if x[0] in ("deadlock", "panic")]
+    return [x for x in mon_resolve(c) if x[0] in ("deadlock", "panic", "caller-blocked")]
 
 
 def run_c12(ctx):
-    return run_areas(ctx, ["cliresolve", "clirace"], [mon_resolve],
-                     "cliresolve: request sets x hostile server behaviour x cut points of a recorded byte stream x Close/timeout.")
+    return run_areas(ctx, ["cliresolve", "cliwfail", "clirace"], [mon_resolve],
+                     "cliresolve: request sets x hostile server behaviour x cut points of a recorded byte stream x Close/timeout. " + WFAIL_NOTE)
 
 
 def run_c11(ctx):
-    return run_areas(ctx, ["cligoaway", "clirace"], [mon_goaway, mon_resolve_deadlock_only],
-                     "cligoaway: GOAWAY(last, code) at every position relative to in-flight requests, answers in every order.")
+    return run_areas(ctx, ["cligoaway", "cliwfail", "clirace"], [mon_goaway, mon_resolve_deadlock_only],
+                     "cligoaway: GOAWAY(last, code) at every position relative to in-flight requests, answers in every order. " + WFAIL_NOTE)
 
 
 def run_c02(ctx):
-    return run_areas(ctx, ["cliresp"], [mon_resp, mon_resolve_deadlock_only],
-                     "cliresp: request shapes x response orders, chunkings, paddings, representation choices, CONTINUATION cuts.")
+    return run_areas(ctx, ["cliresp", "cliwfail"], [mon_resp, mon_resolve_deadlock_only],
+                     "cliresp: request shapes x response orders, chunkings, paddings, representation choices, CONTINUATION cuts. " + WFAIL_NOTE)
 
 
 def run_c14c(ctx):
